@@ -89,7 +89,18 @@ impl Prop for C06 {
         let mut case = match mode {
             M_FWD => {
                 let o = GenOpts { max_files: 5, max_ops: if big { 12 } else { 30 }, max_piece: 2 * c.block + 100, max_total: if big { 3 * c.block } else { 10 * c.block }, interleave: rng.chance(2, 3), flushes: rng.chance(1, 4), special_names: true, finalize: true, piece_scheds: false };
-                Case::new("C06", cfg, gen_ops(&mut rng, &c, &o))
+                let mut ops = gen_ops(&mut rng, &c, &o);
+                let mut cfg = cfg;
+                if big && rng.chance(1, 2) {
+                    // stream handed to the first layer solved onto a documented 4 MiB / 128 KiB edge
+                    if cfg.comp() {
+                        cfg.level = cfg.level.min(5);
+                        align_stream(&mut ops, 4 * 1024 * 1024, *rng.pick(&[0usize, 0, 1, 4 * 1024 * 1024 - 1]));
+                    } else if cfg.enc() {
+                        align_stream(&mut ops, 128 * 1024, *rng.pick(&[0usize, 0, 1, 16, 128 * 1024 - 1]));
+                    }
+                }
+                Case::new("C06", cfg, ops)
             }
             M_REV => {
                 let nf = rng.range(0, 5) as usize;
@@ -100,8 +111,20 @@ impl Prop for C06 {
                     total += n;
                     ops.push(WOp::Add { name: gen_name(&mut rng, i), data: Data::make(&mut rng, n), src: Src::exact() });
                 }
+                let mut cfg = cfg;
+                let mut align = -1i64;
+                if big && (cfg.comp() || cfg.enc()) && rng.chance(1, 2) {
+                    cfg.level = cfg.level.min(5);
+                    align = *rng.pick(&[0i64, 0, 1, -2]);
+                    if align == -2 {
+                        align = if cfg.comp() { 4 * 1024 * 1024 - 1 } else { 128 * 1024 - 1 };
+                    }
+                }
                 let mut k = Case::new("C06", cfg, ops);
                 k.params.insert("plan_seed".into(), (rng.u64() >> 1) as i64);
+                if align >= 0 {
+                    k.params.insert("align".into(), align);
+                }
                 k
             }
             M_GCM => {
@@ -184,7 +207,18 @@ impl Prop for C06 {
                     }
                     plan.push((prng.usize_below(files.len()), gen_size(&mut prng, &vc.model_consts(), 1 << 22).max(1)));
                 }
-                let stream = refmla::well_formed_stream(&files, &plan);
+                let mut files = files;
+                let mut stream = refmla::well_formed_stream(&files, &plan);
+                let align = case.param("align", -1);
+                if align >= 0 && !files.is_empty() {
+                    // grow the last file so that the stream ends exactly on / next to a documented edge
+                    let m = if case.cfg.comp() { par.block } else { par.chunk };
+                    let d = ((align as usize) % m + m - stream.len() % m) % m;
+                    let last = files.len() - 1;
+                    let extra = Data::Rand { n: d, seed: case.param("plan_seed", 1) as u64 ^ 0xA11 }.bytes();
+                    files[last].1.extend_from_slice(&extra);
+                    stream = refmla::well_formed_stream(&files, &plan);
+                }
                 let mut r2 = Rng::new(case.cfg.rng_seed ^ 0x5555);
                 let mut key = [0u8; 32];
                 r2.fill(&mut key);
